@@ -5,3 +5,4 @@ pub mod c06;
 pub mod c03;
 pub mod c05;
 pub mod c19;
+pub mod c17lib;
